@@ -758,6 +758,10 @@ class DestHandler:
         if packet_holder.pdu is None:
             return
         if packet_holder.pdu_type == PduType.FILE_DATA:
+            if self._params.fp.file_size_eof is not None:
+                # The EOF PDU was received already and the whole file is listed as lost. The file
+                # data is re-requested together with the metadata.
+                return
             self._handle_fd_without_previous_metadata(True, packet_holder.to_file_data_pdu())
         elif packet_holder.pdu_directive_type == DirectiveType.METADATA_PDU:
             self._handle_metadata_packet(packet_holder.to_metadata_pdu())
